@@ -59,6 +59,10 @@ pub fn c15_set_ops() {
 #[cfg_attr(kani, kani::proof)]
 #[cfg_attr(kani, kani::unwind(53))]
 pub fn c15_peel_step() {
+    let b0 = sym::u64();
+    // priming call on an unrelated arbitrary input: a memo / cache in front of a pure function would show here
+    let mut x0 = b0;
+    let _ = x0.peel();
     let b = sym::u64();
     let mut x = b;
     let r = x.peel();
